@@ -300,6 +300,13 @@ func (t *Taint) stepFunc(fn *ssa.Function, cg *callgraph.Graph) {
 			case *ssa.UnOp:
 				switch x.Op {
 				case token.MUL:
+					if sts, plain := reachingStores(x); plain {
+						// a plain local: what the reaching stores put there
+						for _, st := range sts {
+							t.set(x, t.val[st.Val], st.Val)
+						}
+						continue
+					}
 					t.set(x, t.val[x.X], x.X)
 					if g, ok := x.X.(*ssa.Global); ok {
 						t.set(x, t.global[g], nil)
@@ -767,6 +774,108 @@ var _ = fmt.Sprintf
 // globalWriters lists, per package-level variable of the module, the non-init functions that write
 // it (store, map update/delete on the loaded map, element store, or passing its address to a call
 // such as sync.Once.Do / atomic ops / Lock).
+// exclusivePool: the package-level variable name (relPath.Name) is a sync.Pool, every use of it in the module is a
+// Get or Put call (or its initialisation), and no object obtained by Get is stored into a field, a package
+// variable, a map, a slice element or a channel, captured by a function literal or returned: whoever takes an object
+// has it to itself until it puts it back.
+func (a *A) exclusivePool(name string) (bool, string) {
+	var g *ssa.Global
+	for _, pkg := range a.Prog.AllPackages() {
+		if !a.inModule(pkg.Pkg) {
+			continue
+		}
+		for _, m := range pkg.Members {
+			if gl, ok := m.(*ssa.Global); ok && relPath(pkg.Pkg.Path())+"."+gl.Name() == name {
+				g = gl
+			}
+		}
+	}
+	if g == nil || !isNamedType(derefT(g.Type()), "sync", "Pool") {
+		return false, ""
+	}
+	gets, puts := 0, 0
+	ok := true
+	escapes := func(v ssa.Value) bool {
+		seen := map[ssa.Value]bool{}
+		work := []ssa.Value{v}
+		for len(work) > 0 {
+			x := work[len(work)-1]
+			work = work[:len(work)-1]
+			if seen[x] || x.Referrers() == nil {
+				continue
+			}
+			seen[x] = true
+			for _, r := range *x.Referrers() {
+				switch y := r.(type) {
+				case *ssa.TypeAssert, *ssa.ChangeType, *ssa.ChangeInterface, *ssa.MakeInterface, *ssa.Phi, *ssa.Extract:
+					work = append(work, y.(ssa.Value))
+				case *ssa.Store:
+					if y.Val != x {
+						continue
+					}
+					al, isLocal := y.Addr.(*ssa.Alloc)
+					if !isLocal {
+						return true
+					}
+					for _, rr := range *al.Referrers() {
+						if ld, isLoad := rr.(*ssa.UnOp); isLoad && ld.Op == token.MUL {
+							work = append(work, ld)
+						} else if _, isStore := rr.(*ssa.Store); !isStore {
+							if _, isDbg := rr.(*ssa.DebugRef); !isDbg {
+								return true // the local's address goes somewhere
+							}
+						}
+					}
+				case *ssa.MapUpdate:
+					if y.Value == x || y.Key == x {
+						return true
+					}
+				case *ssa.Send:
+					if y.X == x {
+						return true
+					}
+				case *ssa.Return, *ssa.MakeClosure, *ssa.Go:
+					return true
+				}
+			}
+		}
+		return false
+	}
+	for _, fn := range a.ModFuncs {
+		isInit := fn.Name() == "init" || strings.HasPrefix(fn.Name(), "init#")
+		allInstrs(fn, func(in ssa.Instruction) {
+			uses := false
+			for _, op := range in.Operands(nil) {
+				if *op == ssa.Value(g) {
+					uses = true
+				}
+			}
+			if !uses {
+				return
+			}
+			if ci, isCall := in.(ssa.CallInstruction); isCall {
+				switch calleeFull(ci.Common()) {
+				case "(*sync.Pool).Get":
+					gets++
+					if v, isV := in.(ssa.Value); isV && escapes(v) {
+						ok = false
+					}
+					return
+				case "(*sync.Pool).Put":
+					puts++
+					return
+				}
+			}
+			if fa, isFA := in.(*ssa.FieldAddr); isFA && isInit {
+				_ = fa
+				return
+			}
+			ok = false
+		})
+	}
+	return ok && gets > 0 && puts > 0, fmt.Sprintf("%d Get, %d Put", gets, puts)
+}
+
 func (a *A) globalWriters() map[string][]string {
 	out := map[string]map[string]bool{}
 	add := func(g *ssa.Global, fn *ssa.Function) {
